@@ -110,8 +110,10 @@ pub enum ChildResult {
 
 pub type LTableDump = BTreeMap<String, Vec<V>>;
 
-fn child_cpu_ticks(pid: u32) -> u64 {
+/// (utime+stime over all threads, number of threads that are runnable or in uninterruptible disk wait)
+fn child_cpu_ticks(pid: u32) -> (u64, usize) {
     let mut total = 0;
+    let mut busy = 0;
     if let Ok(rd) = std::fs::read_dir(format!("/proc/{}/task", pid)) {
         for e in rd.flatten() {
             if let Ok(s) = std::fs::read_to_string(e.path().join("stat")) {
@@ -119,18 +121,22 @@ fn child_cpu_ticks(pid: u32) -> u64 {
                     let f: Vec<&str> = s[pos + 1..].split_whitespace().collect();
                     if f.len() > 12 {
                         total += f[11].parse::<u64>().unwrap_or(0) + f[12].parse::<u64>().unwrap_or(0);
+                        if f[0] == "R" || f[0] == "D" {
+                            busy += 1;
+                        }
                     }
                 }
             }
         }
     }
-    total
+    (total, busy)
 }
 
 pub fn run_child(dir: &Path, cfg: &DbCfg, die_at: Option<usize>) -> ChildResult {
     crate::guard::EXTERNAL_WAITS.fetch_add(1, Ordering::SeqCst);
     let r = run_child_inner(dir, cfg, die_at);
     crate::guard::EXTERNAL_WAITS.fetch_sub(1, Ordering::SeqCst);
+    crate::guard::heartbeat();
     r
 }
 
@@ -144,7 +150,7 @@ fn run_child_inner(dir: &Path, cfg: &DbCfg, die_at: Option<usize>) -> ChildResul
     let mut child = cmd.stdout(Stdio::piped()).stderr(Stdio::piped()).spawn().expect("spawn child");
     let pid = child.id();
     let start = Instant::now();
-    let mut last = child_cpu_ticks(pid);
+    let mut last = child_cpu_ticks(pid).0;
     let mut idle = 0;
     loop {
         match child.try_wait() {
@@ -180,14 +186,16 @@ fn run_child_inner(dir: &Path, cfg: &DbCfg, die_at: Option<usize>) -> ChildResul
         }
         std::thread::sleep(Duration::from_millis(if start.elapsed() < Duration::from_secs(2) { 4 } else { 200 }));
         if start.elapsed() > Duration::from_secs(2) {
-            let t = child_cpu_ticks(pid);
-            if t.saturating_sub(last) == 0 {
+            // a child whose threads all sleep (futex) and burn no CPU is stuck; one that is runnable but starved, or in
+            // disk wait on a loaded machine, is not
+            let (t, busy) = child_cpu_ticks(pid);
+            if t.saturating_sub(last) == 0 && busy == 0 {
                 idle += 1;
             } else {
                 idle = 0;
             }
             last = t;
-            let hung = idle >= 12; // 2.4 s without a single clock tick of CPU
+            let hung = idle >= 20; // 4 s with every thread asleep and not a single clock tick of CPU
             if hung || start.elapsed() > Duration::from_secs(90) {
                 let _ = child.kill();
                 let _ = child.wait();
@@ -461,7 +469,7 @@ fn run_history(id: String, seed: u64, cfg: DbCfg, letters: Vec<u8>, max_images: 
                 if *progressed {
                     out.inconclusive.push(format!("child open exceeded 90 s with CPU still advancing: {}", describe("")));
                 } else {
-                    out.fail(Failure::new("crash", "open_never_terminates", &format!("{}|{}|{}", phase, flush_step, panic_site(stderr)), describe(&format!("LocustDB::new made no progress for 2.4 s: {}", tail(stderr))), image_case.clone()));
+                    out.fail(Failure::new("crash", "open_never_terminates", &format!("{}|{}|{}", phase, flush_step, panic_site(stderr)), describe(&format!("LocustDB::new made no progress for 4 s (all threads asleep): {}", tail(stderr))), image_case.clone()));
                 }
             }
         }
@@ -488,13 +496,14 @@ fn tail(s: &str) -> String {
 fn panic_site(stderr: &str) -> String {
     for l in stderr.lines() {
         // the child's panic hook prints "[site=file#function]" (stable under line shifts)
-        if let (Some(a), true) = (l.find("[site="), l.contains(" at /repo/")) {
+        let at_repo = format!(" at {}", crate::guard::repo_root());
+        if let (Some(a), true) = (l.find("[site="), l.contains(&at_repo)) {
             let rest = &l[a + 6..];
             let end = rest.rfind(']').unwrap_or(rest.len());
             return rest[..end].to_string();
         }
-        if let Some(pos) = l.find(" at /repo/") {
-            let rest = &l[pos + 10..];
+        if let Some(pos) = l.find(&at_repo) {
+            let rest = &l[pos + at_repo.len()..];
             let end = rest.find(": ").unwrap_or(rest.len());
             return rest[..end].to_string();
         }
